@@ -42,9 +42,12 @@ VARIABLES dialect, fields,    \* the case: a list of fields
           idx, columns        \* columns produced so far
 vars == <<dialect, fields, idx, columns>>
 
-IntFields == {[t |-> "Integer", lo |-> a, hi |-> b, empty |-> e, name |-> "amount"] :
+\* open: "none" -- the range lo...hi; "lo" -- ...hi (no lower limit); "hi" -- lo... (no upper limit)
+IntFields == {[t |-> "Integer", lo |-> a, hi |-> b, open |-> "none", empty |-> e, name |-> "amount"] :
                 a \in Numbers, b \in Numbers, e \in BOOLEAN}
-Lists == {<<f>> : f \in {g \in IntFields : Leq(g.lo, g.hi)}}
+OpenIntFields == {[t |-> "Integer", lo |-> a, hi |-> a, open |-> o, empty |-> e, name |-> "amount"] :
+                    a \in Numbers, o \in {"lo", "hi"}, e \in BOOLEAN}
+Lists == {<<f>> : f \in {g \in IntFields : Leq(g.lo, g.hi)} \cup OpenIntFields}
     \cup UNION {{l \in [1..n -> OtherFields] : \A i, j \in 1..n : i # j => l[i].name # l[j].name} : n \in 1..MaxFields}
 Init == dialect \in Dialects /\ fields \in Lists /\ idx = 0 /\ columns = <<>>
 
@@ -59,6 +62,8 @@ Keyword(d, name) == CASE name = "select" -> TRUE
 \* the dialect ladders for ("int", limit)
 IntColumn(d, f) ==
   LET m == MagMax(Adjusted(f.lo), Adjusted(f.hi)) IN
+  \* without a lower or an upper limit there is nothing to derive a type from: the dialect's default integer type
+  IF f.open # "none" THEN (IF d = "db2" THEN "integer" ELSE "int") ELSE
   CASE d = "ansi" -> "int"
     [] d = "pl" -> IF MagFits(m, 31) THEN "int" ELSE "number"
     [] d = "tsql" -> IF MagFits(m, 8) /\ (TinyintNeedsNonNegative => ~Neg(f.lo)) THEN "tinyint"
@@ -99,7 +104,7 @@ Holds(d, type, v) ==
     [] type = "bigint" -> IF Neg(v) THEN MagFits([v EXCEPT !.d = @ - 1], 63) ELSE MagFits(v, 63)
     [] type \in {"decimal", "number"} -> TRUE                                     \* the declared precision exceeds every limit used
 ColumnHoldsBothLimits ==
-  \A i \in 1..Len(columns) : fields[i].t = "Integer" =>
+  \A i \in 1..Len(columns) : (fields[i].t = "Integer" /\ fields[i].open = "none") =>              \* (bounded ranges)
      Holds(dialect, columns[i].type, fields[i].lo) /\ Holds(dialect, columns[i].type, fields[i].hi)
 OneColumnPerFieldInOrder == \A i \in 1..Len(columns) : columns[i].name = fields[i].name /\ columns[i].notnull = ~fields[i].empty
 TypeOK == idx \in 0..Len(fields)
